@@ -289,6 +289,17 @@ STUBS = ["clock: time.perf_counter/time.time inside esrally.driver.driver and es
          "asyncio.sleep inside esrally.driver.driver (advances the clock by the requested time; slack = next d)",
          "schedule handle yielding symbolic non-decreasing scheduled times", "runner (symbolic outcome class; touches the request context like the transport)"]
 
+def _c07(name):
+    """harness.c07 imports this module (through c01): resolve its Sampler interleaving harnesses lazily"""
+    def run(sl):
+        from harness import c07
+
+        return getattr(c07, name)(sl)
+
+    run.__name__ = name
+    return run
+
+
 HARNESSES = [
     Harness("timings", timings, "symbolic",
             lambda tier: [{"requests": k, "throttled": t, "_w": k} for k in ((1, 2, 3) if tier == "quick" else (1, 2, 3, 4)) for t in (True, False)]
@@ -306,5 +317,12 @@ HARNESSES = [
     Harness("completion_seam", completion_seam, "symbolic",
             lambda tier: [{"completes": c, "any": a} for (c, a) in ((False, False), (True, False), (False, True))], reads=READS, stubs=STUBS,
             bounds={"requests": 3}, real_valued=True, doc="assume/guarantee seam for the actor harnesses: completion flags"),
+    Harness("sampler_add_vs_drain", _c07("add_interleaving"), "bounded-exhaustive", lambda tier: [{}], reads=READS,
+            stubs=["consumer thread = a drain injected by sys.settrace at a line event inside Sampler.add / Sample.__init__"],
+            bounds={"samples before": "0..2", "injection point": "every line event of the add in esrally/driver/driver.py"},
+            doc="exactly one sample per request also when the worker drains while the sample is being added"),
+    Harness("sampler_drain_vs_add", _c07("drain_interleaving"), "bounded-exhaustive", lambda tier: [{}], reads=READS,
+            stubs=["producer thread = an add() injected by sys.settrace at a line event inside Sampler.samples"],
+            bounds={"samples before": "0..2", "injection point": "every line event of the drain"}, doc="drain vs. concurrent add at statement granularity"),
     Harness("queue_full", queue_full, "bounded-exhaustive", lambda tier: [{"size": n} for n in (1, 2, 5)], reads=READS, doc="bounded sample queue"),
 ]
